@@ -51,9 +51,10 @@ def rand_library(r):
         elif k < .84:
             specs.append(["icomment", r.choice(["% c", "free text", "multi\nline text"])])
         elif k < .93:
-            specs.append(["failed", r.choice(["@a{k, t = {x", "@a{\n k,\n t = \n", "@string{s", "@a{k,,,}\n\n", "x", "l1\nl2\nl3\nl4", "l1\r\nl2"])])
+            specs.append(["failed", r.choice(["@a{k, t = {x", "@a{\n k,\n t = \n", "@string{s", "@a{k,,,}\n\n", "x", "l1\nl2\nl3\nl4", "l1\r\nl2", "", "", " ", "0"])])
         else:
-            inner = ["entry", "a", "dup", [["t", "{x}"], ["u", "{y}"]], "@a{dup, t = {x}, u = {y}}"]
+            # (falsy and blank raw texts too: 'verbatim' does not depend on the truthiness of the text; seed C06-g)
+            inner = ["entry", "a", "dup", [["t", "{x}"], ["u", "{y}"]], r.choice(["@a{dup, t = {x}, u = {y}}"] * 4 + ["", " ", "0"])]
             specs.append(r.choice([["dupkey", "dup", inner], ["dupfield", ["t"], inner]]))
     return specs
 
